@@ -87,6 +87,17 @@ def conv_disagreements(cls):
     return out
 
 
+def property_like(cls, name, member):
+    """Is the public member a property in the user's sense?  Decided here, independently of the
+    code under test (seed G09): `property` objects and any other non-callable descriptor found
+    on the class (functools.cached_property, ...)."""
+    if isinstance(member, property):
+        return True
+    raw = inspect.getattr_static(cls, name, None)
+    return (raw is not None and not callable(raw) and not isinstance(raw, (staticmethod, classmethod))
+            and hasattr(type(raw), "__get__"))
+
+
 def surface(cls):
     """[(kind, name, params)] with kind in F/P/O; params = [(name, kind, has_default, conv)]"""
     out = []
@@ -98,6 +109,8 @@ def surface(cls):
                     continue
                 ps.append((p.name, KINDS[p.kind], p.default is not p.empty, conv_class(p.annotation)))
             out.append(("F", name, ps))
+        elif not name.startswith("_") and not isinstance(member, property) and property_like(cls, name, member):
+            out.append(("P", name, []))       # read-only as far as the command surface goes
         elif isinstance(member, property):
             if member.fset is not None:
                 vals = list(inspect.signature(member.fset).parameters.values())
